@@ -77,9 +77,9 @@ TEXT["C09"] = dict(engine="verus+engineB",
    level="Unbounded deductive proof: if the client holds an unexpired lease on an address of the pool it is served from, the result is such an address, the requested one if it holds it; "
          "NoAssignableAddress only if every address of the pool has an unexpired row. Bounded confirmation on the real code with real SQLite (all tables <=2/<=3 rows, every pool subset, every requested address).",
    note="Assumed: SQL stub contracts (sql_live_own_all, sql_any_own, sql_in_use, sql_upsert) beyond the engine-B bound; Ipv4Addr Display/FromStr inverse. REQUEST address choice (ciaddr else option 50): see dhcphandlers in C13 evidence when claimed.")
-TEXT["C20"] = dict(engine="engineB",
-   technique="bounded exhaustive check of the gauge and listing SQL statements through the real Pool::get_pool_metrics / get_leases on real SQLite",
-   level="BOUNDED (not a proof): for every lease table with <=2 (quick) / <=3 (thorough) rows over 2 clients and expiry in {now-100, now+100, now+200}, including the empty table: "
+TEXT["C20"] = dict(engine="verus+engineB",
+   technique="Verus on the R9 slice of serve_leases building the entry list (R17 loop form) + bounded exhaustive check of the gauge and listing SQL statements on real SQLite",
+   level="Deductive (unbounded): the listing has exactly one formatted entry per lease returned by get_leases, for any number of leases. BOUNDED (not a proof): for every lease table with <=2 (quick) / <=3 (thorough) rows over 2 clients and expiry in {now-100, now+100, now+200}, including the empty table: "
          "get_pool_metrics == (|expiry > now|, |expiry <= now|) and get_leases returns exactly one entry per row with equal address, client id, start and expiry. "
          "These functions consist of one SQL statement each, which no installed deductive verifier can reach; the bounded stand-in is the strongest check available.",
    note="NOT decided: JSON validity of the /api/v1/leases.json body (depends on core::fmt's {:?} of arbitrary strings; outside Verus, too expensive for Kani). update_metrics gauge wiring not under contract yet.")
